@@ -22,6 +22,13 @@
 //	                Transaction, BlockHeader ...) nor instantiated by a function reachable from block execution
 //	                (per-execution objects). This is process-local memo state: a cache added to
 //	                RewardCalculator, MinerManager, an executor ... is a new site.
+//	local-store-result-used  a value or error RETURNED by a node-local store is used (assigned, tested,
+//	                returned - anything but a bare call statement): (a) a method of a type of middleware/db
+//	                (LevelDB handles opened with db.NewDatabase/NewLDBDatabase), database/sql, or a function of
+//	                middleware/mysql, called outside the state layer (src/storage/...: there the store IS the
+//	                state the block is executed on); (b) a read method (Get/Load/Peek/Contains/...) of a foreign
+//	                container (lru, sync.Map ...) reached through a long-lived object. What such a store answers
+//	                is node-local history, not chain state.
 //
 // A site is (file, function, kind, detail); detail is the operand/callee text plus the operand type and,
 // for repeated identical sites inside one function, an occurrence number. No line numbers: sites are
@@ -77,6 +84,17 @@ var mutatingName = map[string]bool{"Add": true, "Set": true, "Store": true, "Put
 	"Swap": true, "CompareAndSwap": true, "Insert": true, "Pop": true, "RemoveOldest": true, "Resize": true, "Reset": true, "Clear": true,
 	"Inc": true, "Dec": true, "Write": true, "WriteString": true}
 
+// read methods of foreign containers
+var readName = map[string]bool{"Get": true, "Load": true, "Peek": true, "Contains": true, "Has": true, "Len": true, "Keys": true, "Front": true,
+	"Back": true, "GetOldest": true, "Range": true}
+
+func recvOrFunc(f *types.Func) string {
+	if sig, ok := f.Type().(*types.Signature); ok && sig.Recv() != nil {
+		return recvName(sig.Recv().Type()) + "." + f.Name()
+	}
+	return f.Name()
+}
+
 type Stats struct {
 	LongLived                                               int
 	Packages, Functions, Reachable, TypeErrors, FakeImports int
@@ -98,6 +116,7 @@ type fn struct {
 }
 
 type cand struct {
+	kind  string // "" = singleton-write
 	expr  string
 	types []*types.TypeName // module named types on the access path, root first
 }
@@ -671,6 +690,11 @@ func Scan(repo string) ([]Site, Stats, error) {
 				x.cands = append(x.cands, cand{expr: how + " " + short(e), types: ts})
 			}
 		}
+		readThrough := func(sel *ast.SelectorExpr) {
+			if ts := pathTypes(sel.X, 0); len(ts) > 0 {
+				x.cands = append(x.cands, cand{kind: "local-store-result-used", expr: short(sel) + "(..)", types: ts})
+			}
+		}
 		lhs := func(e ast.Expr) {
 			write(e, "assign")
 			id := rootIdent(e)
@@ -680,6 +704,47 @@ func Scan(repo string) ([]Site, Stats, error) {
 			if o := x.info.Uses[id]; o != nil && isModuleGlobal(o) {
 				add("global-write", qual(o.Pkg())+"."+o.Name()+" via "+short(e))
 			}
+		}
+		// calls whose result is used: every call that is not a statement of its own (or go/defer, or
+		// assigned to blanks only)
+		unused := map[*ast.CallExpr]bool{}
+		ast.Inspect(x.body, func(n ast.Node) bool {
+			switch v := n.(type) {
+			case *ast.ExprStmt:
+				if c, ok := v.X.(*ast.CallExpr); ok {
+					unused[c] = true
+				}
+			case *ast.GoStmt:
+				unused[v.Call] = true
+			case *ast.DeferStmt:
+				unused[v.Call] = true
+			case *ast.AssignStmt:
+				if len(v.Rhs) == 1 {
+					if c, ok := v.Rhs[0].(*ast.CallExpr); ok {
+						blank := true
+						for _, l := range v.Lhs {
+							if id, ok := l.(*ast.Ident); !ok || id.Name != "_" {
+								blank = false
+							}
+						}
+						if blank {
+							unused[c] = true
+						}
+					}
+				}
+			}
+			return true
+		})
+		inStateLayer := strings.HasPrefix(relPkg(x.pkg.Path()), "src/storage")
+		localStorePkg := func(p *types.Package) bool {
+			if p == nil {
+				return false
+			}
+			switch p.Path() {
+			case Module + "/src/middleware/db", Module + "/src/middleware/mysql", "database/sql":
+				return true
+			}
+			return false
 		}
 		callFun := map[*ast.Ident]*ast.CallExpr{}
 		selOf := map[*ast.Ident]*ast.SelectorExpr{}
@@ -709,6 +774,24 @@ func Scan(repo string) ([]Site, Stats, error) {
 					}
 				case *ast.SelectorExpr:
 					callFun[f.Sel] = v
+					if !unused[v] {
+						var callee *types.Func
+						if sel := x.info.Selections[f]; sel != nil && sel.Kind() == types.MethodVal {
+							callee, _ = sel.Obj().(*types.Func)
+						} else if fo, ok := x.info.Uses[f.Sel].(*types.Func); ok {
+							callee = fo // pkg.Func
+						}
+						if callee != nil {
+							sig, _ := callee.Type().(*types.Signature)
+							hasResult := sig != nil && sig.Results().Len() > 0
+							switch {
+							case hasResult && localStorePkg(callee.Pkg()) && !inStateLayer && callee.Name() != "NewBatch":
+								add("local-store-result-used", short(f)+"(..) : "+callee.Pkg().Name()+"."+recvOrFunc(callee))
+							case hasResult && sig.Recv() != nil && callee.Pkg() != nil && !strings.HasPrefix(callee.Pkg().Path(), Module) && readName[f.Sel.Name]:
+								readThrough(f)
+							}
+						}
+					}
 					if sel := x.info.Selections[f]; sel != nil && sel.Kind() == types.MethodVal && mutatingName[f.Sel.Name] {
 						if m, ok := sel.Obj().(*types.Func); ok && m.Pkg() != nil && !strings.HasPrefix(m.Pkg().Path(), Module) {
 							write(&ast.SelectorExpr{X: f.X, Sel: f.Sel}, "call")
@@ -925,11 +1008,15 @@ func Scan(repo string) ([]Site, Stats, error) {
 				continue
 			}
 			detail := hit.Pkg().Name() + "." + hit.Name() + " : " + c.expr
-			occ[detail]++
-			if occ[detail] > 1 {
-				detail = fmt.Sprintf("%s #%d", detail, occ[detail])
+			kind := "singleton-write"
+			if c.kind != "" {
+				kind = c.kind
 			}
-			sites = append(sites, Site{x.file, x.name, "singleton-write", detail})
+			occ[kind+detail]++
+			if occ[kind+detail] > 1 {
+				detail = fmt.Sprintf("%s #%d", detail, occ[kind+detail])
+			}
+			sites = append(sites, Site{x.file, x.name, kind, detail})
 		}
 	}
 	if All {
